@@ -75,6 +75,14 @@ for i, inp in enumerate(["aaaad", "aab", "ad", "", "aacaa"]):
 # a result computed inside a ! predicate and reused outside it (the expected set of the final report differs under Memoize:
 # outside C06's claim, inside the model: q_memo_expected)
 P.append(case("c06probe-3-0/0", [rule("S", alt(seq(un("not", ref("A")), lit("x")), ref("A"))), rule("A", lit("a"))], [], "b", memo=1))
+# a memo hit on a list value (a repetition of 3, 5, 6, 7 items) on the path that finally succeeds, no action in between
+for i, inp in enumerate(["aaay", "aaaaay", "aaaaaay", "aaaaaaay", "aay", "aaax", "y"]):
+    P.append(case("c06probe-4-%d/0" % i,
+        [rule("S", alt(seq(ref("R"), lit("x"), un("not", anyc())), seq(ref("R"), lit("y"), un("not", anyc())))),
+         rule("R", un("plus", lit("a")))], [], inp, memo=1))
+    P.append(case("c06probe-5-%d/0" % i,
+        [rule("S", alt(seq(lab("v", un("star", alt(lit("a"), lit("b")))), lit("x")), seq(lab("v", un("star", alt(lit("a"), lit("b")))), lit("y")), seq(ref("T"), lit("y")))),
+         rule("T", seq(un("star", lit("a")), un("opt", lit("q"))))], [], inp, memo=1))
 W["c06_probes"] = P
 os.makedirs(os.path.join(V, "corpus"), exist_ok=True)
 for k, lines in W.items():
